@@ -105,7 +105,12 @@ class ConnectRequestInformation:
             raise CouldNotParseKNXIP("CRI data has wrong length")
         if cri_length < ConnectRequestInformation.CRI_LENGTH:
             raise CouldNotParseKNXIP("CRI length too small")
-        self.connection_type = ConnectRequestType(raw[1])
+        try:
+            self.connection_type = ConnectRequestType(raw[1])
+        except ValueError as err:
+            raise CouldNotParseKNXIP(
+                f"unsupported connection type: {raw[1]:#x}"
+            ) from err
         if self._is_tunnel_cri():
             if cri_length == ConnectRequestInformation.CRI_TUNNEL_LENGTH:
                 extended = False
@@ -113,7 +118,12 @@ class ConnectRequestInformation:
                 extended = True
             else:
                 raise CouldNotParseKNXIP("CRI has wrong length")
-            self.knx_layer = TunnellingLayer(raw[2])
+            try:
+                self.knx_layer = TunnellingLayer(raw[2])
+            except ValueError as err:
+                raise CouldNotParseKNXIP(
+                    f"unsupported tunnelling layer: {raw[2]:#x}"
+                ) from err
             self.individual_address = (
                 IndividualAddress.from_knx(raw[4:6]) if extended else None
             )
